@@ -111,12 +111,37 @@ func genScenario(r *common.Rng, ev *env, idx int) Scenario {
 	if sc.clientTotal() == 0 && !sc.TargetFirst {
 		sc.CloseFirst = "client"
 	}
+	// every fifth success scenario ends with a copy error after data was relayed
+	if r.Chance(1, 4) && sc.Timing != "eofdata" && sc.Timing != "eofempty" {
+		kinds := []string{"target", "target", "wclosed"}
+		if sc.Server != "ss2022" { // the harness needs the raw socket of its client connection to abort it
+			kinds = append(kinds, "client", "client")
+		}
+		sc.Reset = common.Pick(r, kinds)
+		switch sc.Reset {
+		case "target":
+			sc.CloseFirst, sc.PostEOFLen = "target", 0
+		case "client":
+			sc.CloseFirst, sc.PostEOFLen = "client", 0
+		case "wclosed":
+			sc.CloseFirst, sc.PostEOFLen = "target", common.Pick(r, []int{2, 2000, 80000, 300000})
+		}
+		if len(sc.TargetLens) == 0 {
+			sc.TargetLens = []int{common.Pick(r, sizes)}
+		}
+		if sc.clientTotal()-sc.PostEOFLen == 0 {
+			sc.FirstLen, sc.Timing = 100, "early"
+		}
+		if sc.Timing == "never" {
+			sc.TargetFirst = true
+		}
+	}
 	return sc
 }
 
 func sig(sc *Scenario) string {
-	return fmt.Sprintf("%s>%s dis=%v buf=%d req=%d %s first=%d c=%v t=%v tf=%v close=%s post=%d fail=%s/%d", sc.Server, sc.Client, sc.DisableWait, sc.Buf,
-		sc.ReqLen, sc.Timing, sc.FirstLen, sc.ClientLens, sc.TargetLens, sc.TargetFirst, sc.CloseFirst, sc.PostEOFLen, sc.Fail, sc.UpCode)
+	return fmt.Sprintf("%s>%s dis=%v buf=%d req=%d %s first=%d c=%v t=%v tf=%v close=%s post=%d fail=%s/%d reset=%s", sc.Server, sc.Client, sc.DisableWait, sc.Buf,
+		sc.ReqLen, sc.Timing, sc.FirstLen, sc.ClientLens, sc.TargetLens, sc.TargetFirst, sc.CloseFirst, sc.PostEOFLen, sc.Fail, sc.UpCode, sc.Reset)
 }
 
 type result struct {
@@ -193,7 +218,7 @@ func evalOne(sc Scenario, ev *env, m *modelClient) result {
 	}
 	var diffs []string
 	for _, w := range sc.waitChoices(buf, &res.obs) {
-		line := sc.hcLine(m.tb, target, w)
+		line := sc.hcLine(m.tb, target, w, sc.schedFor(&res.obs))
 		tr, err := m.ask(line)
 		if err != nil {
 			res.err = err
@@ -233,6 +258,8 @@ func record(rep *common.Report, res *result) {
 	rep.Count("timing:" + sc.Timing)
 	if sc.Fail != "" {
 		rep.Count("fail:" + sc.Fail)
+	} else if sc.Reset != "" {
+		rep.Count("ending:error-" + sc.Reset)
 	} else {
 		rep.Count("close-first:" + sc.CloseFirst)
 	}
@@ -266,7 +293,8 @@ func main() {
 		"server protocols {direct, none, socks5, socks5+auth, http CONNECT, http+auth, ss2022} x client protocols {direct, direct+TFO, socks5, http, none, ss2022} " +
 		"(proxy clients terminated by harness-side servers); initialPayloadWaitTimeout 50-100 ms, wait buffer {default,1,16,100,1440,4096}; " +
 		"client timing {early, coalesced with the request, at the deadline, late, never (server speaks first), EOF with data, EOF without}; first-write sizes around the buffer size; " +
-		"either side closes first and the other keeps writing after it saw the EOF; failures {refused, unreachable, name lookup, router reject, upstream proxy failure}; " +
+		"either side closes first and the other keeps writing after it saw the EOF; one success scenario in four ends with a copy ERROR after data was relayed " +
+		"(target aborts with RST once both sides hold everything, client aborts with RST, target closes its socket and the client keeps writing); failures {refused, unreachable, name lookup, router reject, upstream proxy failure}; " +
 		"a case is non-trivial if bytes flowed or a failure was injected; distinct by the whole scenario"
 	ev, stopEnv, err := probeEnv()
 	if err != nil {
